@@ -69,6 +69,8 @@ def _registered_key_sources(fn, table):
 
 
 def run(repo, rep):
+    from ..pitfalls import memo_rule as _memo_rule
+    _memo_rule(repo, rep, 'C11', 'C11.Z1')
     hier = exc_hierarchy(repo)
     ae = repo.cls('applicationentity', 'AEBase')
     rq = repo.cls('asceprovider', 'AssociationRequester')
